@@ -13,6 +13,7 @@ EXTRA = {  # additional checks that are expected to see the same defect
     "C05-r4A": ["C16", "C04"], "C05-r4B": ["C16", "C18"], "C07-r4A": ["C12"], "C10-r4A": ["C11", "C18"], "C14-r4B": ["C13", "C18"], "C18-r4A": ["C15"], "C08-r4A": ["C20"], "C05-r3A": ["C20"],
     "C03-r5A": ["C01"], "C06-r5A": ["C01"], "C15-r5B": ["C01"], "C07-r5A": ["C02"], "C08-r5B": ["C20"], "C10-r5B": ["C20"], "C13-r5B": ["C20"], "C14-r5A": ["C20"], "C20-r5A": ["C16"], "C11-r5A": ["C04", "C07"],
     "C09-r6A": ["C18"], "C10-r6A": ["C06"], "C11-r6A": ["C02"], "C11-r6B": ["C07", "C12"], "C20-r6A": ["C15", "C18"], "C14-r6A": ["C20"],
+    "C05-r7A": ["C20"], "C10-r7A": ["C19"], "C13-r7A": ["C20"], "C20-r7A": ["C16"], "C05-r7B": ["C20"], "C07-r7B": ["C12"], "C10-r7B": ["C06", "C18"], "C11-r7B": ["C07"], "C12-r7B": ["C07"], "C04-r7B": ["C19"],
     "C04-B": ["C16"], "C19-B": ["C16"], "C06-B": ["C18"], "C16-A": ["C18"], "C20-B": [], "C11-A": ["C06"], "C05-A": ["C07"],
 }
 RUNS = int(os.environ.get("SEED_RUNS", "2"))
